@@ -30,7 +30,7 @@ func init() {
 	register(PropSpec{
 		ID:    "C06",
 		Title: "Plain data passes through unchanged; $$ escapes any literal dollar",
-		Rules: []func(*Prog, *Result){ruleFinalize, ruleOutputGate("C06"), ruleValidate("C06"), ruleMarshalRoute},
+		Rules: []func(*Prog, *Result){ruleFinalize, ruleOutputGate("C06"), ruleValidate("C06"), ruleMarshalRoute, ruleC10Dispatch, ruleDollarCensus},
 	})
 	register(PropSpec{
 		ID:    "C07",
@@ -50,7 +50,7 @@ func init() {
 	register(PropSpec{
 		ID:    "C10",
 		Title: "$merge and $replace behave as if the referenced subtree were written inline",
-		Rules: []func(*Prog, *Result){ruleReferencesReadOnly},
+		Rules: []func(*Prog, *Result){ruleC10Phase, ruleC10Dispatch, ruleC10Lookup, ruleReferencesReadOnly, ruleC01Match},
 	})
 	register(PropSpec{
 		ID:    "C19",
@@ -103,12 +103,12 @@ func init() {
 		Rules: []func(*Prog, *Result){ruleMapRanges, ruleSortedMap, ruleGlobals, ruleNondetSources},
 	})
 	register(PropSpec{
-		ID:        "C08",
-		Title:     "Every invocation terminates with complete output or a reported error",
-		Technique: "static analysis: panic-site audit over SSA (unchecked type assertions, compiler-unproven bounds checks, explicit panics, division) and per-call-site classification of every call-graph cycle (depth-guarded / visited-guarded / structural on acyclic data), CLI exit discipline on the CFG",
-		LevelText: "Structural necessary conditions, decided for every path of the code rather than for sampled inputs: no reachable panic site is unguarded and every recursion cycle is bounded by a depth guard, a visited set or strict structural descent. This is the part of 'never panics, never hangs' that is visible in the shape of the code; it is not a proof of termination of the third-party decoders or of bounded memory.",
-		LevelNote: "Trusts go/types, go/ssa, the gc compiler's prove pass for bounds checks it eliminated, os.Exit not returning, library facts listed in the evidence (strings.Split returns >=1 element; a yaml DocumentNode has one child; os.Args is non-empty).",
-		DesignRef: "DESIGN.md §5 C08, §4.2, §4.6, §4.8",
+		ID:          "C08",
+		Title:       "Every invocation terminates with complete output or a reported error",
+		Technique:   "static analysis: panic-site audit over SSA (unchecked type assertions, compiler-unproven bounds checks, explicit panics, division) and per-call-site classification of every call-graph cycle (depth-guarded / visited-guarded / structural on acyclic data), CLI exit discipline on the CFG",
+		LevelText:   "Structural necessary conditions, decided for every path of the code rather than for sampled inputs: no reachable panic site is unguarded and every recursion cycle is bounded by a depth guard, a visited set or strict structural descent. This is the part of 'never panics, never hangs' that is visible in the shape of the code; it is not a proof of termination of the third-party decoders or of bounded memory.",
+		LevelNote:   "Trusts go/types, go/ssa, the gc compiler's prove pass for bounds checks it eliminated, os.Exit not returning, library facts listed in the evidence (strings.Split returns >=1 element; a yaml DocumentNode has one child; os.Args is non-empty).",
+		DesignRef:   "DESIGN.md §5 C08, §4.2, §4.6, §4.8",
 		Explanation: "C08.panic audits every function reachable from the exported API and the mains for panic sites; C08.rec classifies every recursive call site of the closure-aware call graph. Nothing in /repo is executed.",
 		NotDecided: []string{
 			"memory exhaustion by breadth of reference expansion (the guard bounds depth only)",
